@@ -44,17 +44,23 @@ def library_exception(pid, exc):
     the diskcache package) is behaviour of the code, not of the harness: report it as a violation with a replay.  On the
     unchanged tree no case does this (it would have been a harness error before this rule existed)."""
     from . import seams
+    if seams.dc is None:
+        return None
+    root = os.path.dirname(os.path.abspath(seams.dc.__file__))
+    proxy = os.path.abspath(seams.__file__)
     tb = exc.__traceback__
-    last = None
+    last = None         # deepest frame inside the library ...
+    below_ok = True     # ... with nothing but the seam proxies (which act for the library) and the standard library below it
     while tb is not None:
-        last = tb
+        fn = os.path.abspath(tb.tb_frame.f_code.co_filename)
+        if fn.startswith(root + os.sep):
+            last, below_ok = tb, True
+        elif last is not None and fn != proxy and os.sep + 'simdc' + os.sep in fn:
+            below_ok = False
         tb = tb.tb_next
-    if last is None or seams.dc is None:
+    if last is None or not below_ok:
         return None
     fn = last.tb_frame.f_code.co_filename
-    root = os.path.dirname(os.path.abspath(seams.dc.__file__))
-    if not os.path.abspath(fn).startswith(root + os.sep):
-        return None
     if isinstance(exc, (KeyboardInterrupt, SystemExit, MemoryError)):
         return None
     where = '%s:%s' % (os.path.basename(fn), last.tb_frame.f_code.co_name)
